@@ -225,7 +225,7 @@ def gen_random(rng):
 def plan(tier, seed, n):
     maxn = 6 if tier == 'quick' else 10
     masks = [m for k in range(0, maxn + 1) for m in itertools.product([False, True], repeat=k)]
-    nr = 120 if tier == 'quick' else 6000
+    nr = 400 if tier == 'quick' else 20000
     return [{'lo': i * len(masks) // n, 'hi': (i + 1) * len(masks) // n, 'maxn': maxn, 'nr': nr} for i in range(n)]
 
 
